@@ -115,6 +115,9 @@ func genC05(g *core.Gen) {
 		in := core.L(core.A("route"), core.A(r.name), core.I(int64(ctx.colType)), core.I(int64(g.Intn(5))), core.A(stmt), c01Meta(rule), cond, ctx.universe())
 		g.Emit(in, "route", "route-rule="+r.name)
 	}
+	// 4b. the same with literals of every kind in the WHERE (hexadecimal, bit, decimal, float, NULL, numeric
+	// strings): harness/props/c01lit.go
+	genC01LitStmts(g, rt, stmts, g.Scale(700, 14000), "route-lit-", true)
 }
 
 // c05Restrict replaces opaque kinds the in-memory evaluator does not define.
